@@ -25,6 +25,12 @@ def osfsLine (line : String) : String :=
   | ["delete", name] => seqS (fsDelete name)
   | ["openw", name] => seqS (fsOpenWriter name)
   | ["metainit", tmp, final] => seqS (metaInit tmp final)
+  | "hdeletes" :: name :: outcomes =>
+    -- successive Deletes of one existing name; per call the kernel's answer to the directory fsync
+    let step := fun (acc : OState × List String) (o : String) =>
+      let (calls, ack) := fsDeleteF acc.1 name (o == "1")
+      ((run acc.1 calls).getD acc.1, acc.2 ++ [seqS calls ++ (if ack then " -> ok" else " -> err")])
+    " | ".intercalate (outcomes.foldl step ((({} : OState).set name { exist := true }), [])).2
   | "hsyncs" :: name :: outcomes =>
     -- successive Syncs on one fresh handle; per call the kernel's answers "<fileOk><dirOk>"
     let step := fun (acc : Handle × List String) (o : String) =>
